@@ -81,9 +81,13 @@ def run_nodes(st, drv, sid, ctxflags, nodes, init_dump):
             st.samples.append({'schema': sid, 'ctxflags': ctxflags, 'text': trace.text_of(node.words), 'expected': e})
 
 
-def reduced_alphabet(sch):
-    """declared names, one value, one title, the punctuation that sections and assignments need"""
-    return [n.decode('latin-1') for n in sch.all_names()] + ['7', 't1', 'T1', '=', '+=', '{', '}']
+def reduced_alphabet(sch, nocase=False):
+    """declared names (and, for case-insensitive contexts, their upper-case spellings), one value, one title in two letter
+    cases, the punctuation that sections and assignments need"""
+    names = [n.decode('latin-1') for n in sch.all_names()]
+    if nocase:
+        names += [n.upper() for n in names if n.upper() != n]
+    return names + ['7', 't1', 'T1', '=', '+=', '{', '}']
 
 
 def shard_e1(shard):
@@ -92,7 +96,7 @@ def shard_e1(shard):
     drv = get_driver('asan')
     drv.define_schema(sid, sch.spec())
     st = ShardStats('E1 N=%d' % N)
-    alpha = reduced_alphabet(sch) if kind.endswith('r') else S.alphabet_for(sch)
+    alpha = reduced_alphabet(sch, bool(ctxflags & CFGF['NOCASE'])) if kind.endswith('r') else S.alphabet_for(sch)
     init_dump = 'dump ' + dump_sec(new_store(sch, ctxflags), 0)
     buf = []
     for prefix in prefixes:
@@ -263,6 +267,7 @@ def main():
             sch = SCHEMAS[sid]
             alpha = reduced_alphabet(sch)
             for cf in (0, CFGF['NOCASE']):
+                alpha = reduced_alphabet(sch, bool(cf))
                 inner, frontier = trace.viable_prefixes(sch, cf, alpha, 3)
                 shards.append(('noder', sid, cf, N, inner, ck.deadline))
                 for ch in chunks(frontier, 2):
